@@ -1401,6 +1401,16 @@ def helper_names(desc, obs):
             "collection_attributes": doc_items}
 
 
+def guarded(fn, arg):
+    """a probe that cannot complete is a failed probe (reported), never the end of the run"""
+    try:
+        return fn(arg)
+    except BaseException as e:
+        if isinstance(e, (KeyboardInterrupt, SystemExit)):
+            raise
+        return ["probe stopped with " + traceback.format_exc()[-600:]]
+
+
 def with_history(desc, obs):
     """the description with the classes built earlier in this process that share a name with it"""
     mine = names_of(desc)
@@ -1539,7 +1549,7 @@ def main(tier, replay=None):
     hier_failed = 0
     hreported = set()
     for hc in hier:
-        fails = hier_run(hc)
+        fails = guarded(hier_run, hc)
         if not fails:
             continue
         hier_failed += 1
@@ -1555,7 +1565,7 @@ def main(tier, replay=None):
     hcoll = hier_collision_generate()
     hcoll_failed = 0
     for hc in hcoll:
-        fails = hier_collision_run(hc)
+        fails = guarded(hier_collision_run, hc)
         if not fails:
             continue
         hcoll_failed += 1
